@@ -518,6 +518,7 @@ func (fv *FuncVerifier) evalFuncCall(fn *types.Func, call *ast.CallExpr, st *Sta
 		if isIgnoredKey(key) {
 			fv.u.note("ignored call %s (no effect on modelled state)", key)
 			fv.evalReceiverChain(call, st)
+			fv.runArgClosures(call, st)
 			fv.havocAddressedLocals(call, st)
 			for _, a := range call.Args {
 				if fv.hasEffects(a) {
@@ -531,6 +532,7 @@ func (fv *FuncVerifier) evalFuncCall(fn *types.Func, call *ast.CallExpr, st *Sta
 				if fn.Pkg().Path() == ip || strings.HasPrefix(fn.Pkg().Path(), ip+"/") {
 					fv.u.note("calls into %s are ignored here (opaque results, no modelled effect): %s", ip, key)
 					fv.evalReceiverChain(call, st)
+					fv.runArgClosures(call, st)
 					fv.havocAddressedLocals(call, st)
 					// an argument that calls a function under contract (or one an atcall clause is
 					// attached to) is executed for its effects and obligations; calls that are
